@@ -19,3 +19,20 @@ def remove_lemmas():
                                                     z3.And(0 <= w, w < n - 1, R[w] == p0)), {}),
         ("engine.remove.ascending", hy, z3.ForAll([i, j], z3.Implies(z3.And(0 <= i, i < j, j < n - 1), R[i] < R[j])), {}),
     ]
+
+
+def concat_lemmas():
+    """membership in A ++ B: witness forms (element sort Int stands for any sort: only equality is used)"""
+    A = z3.Array("A", z3.IntSort(), z3.IntSort())
+    B = z3.Array("B", z3.IntSort(), z3.IntSort())
+    na, nb, j, q0, p0 = z3.Ints("na nb j q0 p0")
+    R = z3.Lambda([j], z3.If(j < na, A[j], B[j - na]))
+    hy = [na >= 0, nb >= 0]
+    return [
+        ("engine.concat.members_from", hy, z3.Implies(z3.And(0 <= q0, q0 < na + nb, R[q0] == p0),
+                                                      z3.Or(z3.And(0 <= q0, q0 < na, A[q0] == p0),
+                                                            z3.And(0 <= q0 - na, q0 - na < nb, B[q0 - na] == p0))), {}),
+        ("engine.concat.members_left", hy, z3.Implies(z3.And(0 <= q0, q0 < na, A[q0] == p0), z3.And(0 <= q0, q0 < na + nb, R[q0] == p0)), {}),
+        ("engine.concat.members_right", hy, z3.Implies(z3.And(0 <= q0, q0 < nb, B[q0] == p0),
+                                                       z3.And(0 <= q0 + na, q0 + na < na + nb, R[q0 + na] == p0)), {}),
+    ]
